@@ -19,8 +19,11 @@ def main():
             hooks.append(h)
     checks = []
     CHECKS = {}
+    enabled = set(open(os.path.join(vf.VERIF, "lib", "enabled.txt")).read().split())
     for f in sorted(glob.glob(os.path.join(vf.VERIF, "lib", "checks", "c[0-9][0-9].py"))):
         pid = os.path.basename(f)[:-3].upper()
+        if pid not in enabled:
+            continue
         mod = importlib.import_module("checks." + pid.lower())
         if hasattr(mod, "MANIFEST"):
             CHECKS[pid] = mod.MANIFEST
